@@ -259,6 +259,9 @@ def run_matcher_check(ctx, pid, known_filter=None):
         elif not hb_ok or gen_bad:
             core.violation(ctx, "correspondence harness does not build/run against the current tree",
                            dict(kind="correspondence-broken", detail=(hb_out[-1500:] if not hb_ok else str(gen_bad))), no_input=True)
+        elif n_m == 0:
+            # nothing was compared: never a pass
+            core.violation(ctx, "the correspondence run produced no cases", dict(kind="correspondence-broken", detail="0 matcher cases"), no_input=True)
         elif diffs or crashes:
             l, a = (diffs + crashes)[0]
             core.violation(ctx, f"model and implementation disagree (correspondence Model/Matcher.lean ~ matcher/src), no clause of {pid} fails on the implementation: {a[:200]}",
